@@ -1,5 +1,5 @@
 """pytest plugin: run the repository's own (unedited) tests as one more workload under the monitors.
-Selected by VF_SUITE_MONITORS (comma list of purity,c01,c02,c03); results go to VF_SUITE_OUT."""
+Selected by VF_SUITE_MONITORS (comma list of purity,c01,c02,c03,c04,c05,c06,c09); results go to VF_SUITE_OUT."""
 import json
 import os
 
@@ -49,6 +49,110 @@ def pytest_configure(config):
                 return
             post(a, kw, result, pre)
         monitors.attach(ctx, dtw, "distance", p3)
+
+    if "c04" in which:
+        from vf import wpsmon
+
+        def p4(fname):
+            def post(a, kw, result, pre):
+                (s1, s2), kw = dtwmon.split(a, kw)
+                if not isinstance(result, tuple) or len(result) != 2 or not hasattr(result[1], "tolist"):
+                    ctx.count("c04_suite_skipped_other_return_form")
+                    return
+                if kw.get("use_c") or kw.get("compact") or len(s1) > 60 or len(s2) > 60 or len(s1) < 1 or len(s2) < 1:
+                    ctx.count("c04_suite_skipped")
+                    return
+                psi_neg = kw.pop("psi_neg", True if fname == "dtw.warping_paths" else False)
+                keep = kw.pop("keep_int_repr", False)
+                for k_ in ("use_c", "compact"):
+                    kw.pop(k_, None)
+                l1 = dtwmon.tolist(s1)
+                if l1 and isinstance(l1[0], list) and not kw.get("use_ndim"):
+                    ctx.count("c04_suite_skipped")
+                    return
+                wpsmon.check_matrix_vs_ref(ctx, fname, s1, s2, kw, psi_neg, keep, float(result[0]), result[1].tolist())
+                ctx.count("c04_suite_matrices_checked")
+                ctx.case((fname, repr(l1), repr(dtwmon.tolist(s2)), dtwmon.settings_key(kw)), min(len(s1), len(s2)) >= 2)
+            return post
+        monitors.attach(ctx, dtw, "warping_paths", p4("dtw.warping_paths"))
+    if "c05" in which:
+        from vf import wpsmon
+
+        def p5(fname):
+            def post(a, kw, result, pre):
+                (s1, s2), kw = dtwmon.split(a, kw, ("from_s", "to_s"))
+                if kw.pop("include_distance", False) or len(a) > 2:
+                    ctx.count("c05_suite_skipped")
+                    return
+                if len(s1) > 60 or len(s2) > 60 or len(s1) < 1 or len(s2) < 1:
+                    ctx.count("c05_suite_skipped")
+                    return
+                kw.pop("use_c", None)
+                l1 = dtwmon.tolist(s1)
+                if l1 and isinstance(l1[0], list) and not kw.get("use_ndim"):
+                    ctx.count("c05_suite_skipped")
+                    return
+                path = [(int(x), int(y)) for x, y in result]
+                wpsmon.check_path(ctx, fname, path, s1, s2, kw, dtwmon.ref_for(l1, dtwmon.tolist(s2), kw))
+                ctx.count("c05_suite_paths_checked")
+                ctx.case((fname, repr(l1), repr(dtwmon.tolist(s2)), dtwmon.settings_key(kw)), min(len(s1), len(s2)) >= 2)
+            return post
+        monitors.attach(ctx, dtw, "warping_path", p5("dtw.warping_path"))
+        monitors.attach(ctx, dtw, "warping_path_fast", p5("dtw.warping_path_fast"))
+    if "c09" in which:
+        from vf import oracle as _o
+
+        def p9(a, kw, result, pre):
+            (s1, s2), kw = dtwmon.split(a, kw)
+            if len(s1) > 200 or len(s2) > 200 or len(s1) < 1 or len(s2) < 1:
+                ctx.count("c09_suite_skipped")
+                return
+            use_c = kw.pop("use_c", False)
+            w = kw.get("window", a[2] if len(a) > 2 else None)
+            skw = {k_: v_ for k_, v_ in kw.items() if k_ in ("window", "inner_dist") and v_ is not None}
+            if w is not None:
+                skw["window"] = w
+            d = float(dtw.distance(s1, s2, **skw))
+            ctx.count("c09_suite_sandwich_checks")
+            ctx.case(("lb_keogh", repr(dtwmon.tolist(s1)), repr(dtwmon.tolist(s2)), dtwmon.settings_key(skw)), d > 0)
+            if not (0 <= float(result) <= d * (1 + 1e-9) + 1e-12):
+                ctx.violation("lb-exceeds-dtw", prop="C09", fn="dtw.lb_keogh", s1=dtwmon.tolist(s1), s2=dtwmon.tolist(s2),
+                              settings=dict(dtwmon.settings_key(skw)), use_c=bool(use_c), lb=float(result), dtw=d)
+        monitors.attach(ctx, dtw, "lb_keogh", p9)
+    if "c06" in which:
+        import numpy as _np
+
+        def p6(a, kw, result, pre):
+            (s,), kw = dtwmon.split(a, kw, ("s",))
+            if kw.get("block") is not None or kw.get("compact") or kw.get("only_triu") or kw.get("parallel"):
+                ctx.count("c06_suite_skipped")
+                return
+            try:
+                n = len(s)
+                lens = [len(x) for x in s]
+            except Exception:
+                ctx.count("c06_suite_skipped")
+                return
+            if n > 12 or max(lens) > 80 or not hasattr(result, "shape"):
+                ctx.count("c06_suite_skipped")
+                return
+            skw = {k_: v_ for k_, v_ in kw.items() if k_ in ("window", "penalty", "psi", "max_step", "max_length_diff", "inner_dist",
+                                                             "use_ndim") and v_ is not None}
+            if kw.get("max_dist") or kw.get("use_pruning") or kw.get("max_length_diff") is not None:
+                ctx.count("c06_suite_skipped")
+                return
+            R = _np.asarray(result)
+            ctx.count("c06_suite_matrices_checked")
+            ctx.case(("distance_matrix", repr([dtwmon.tolist(x) for x in s]), dtwmon.settings_key(skw)), n >= 3)
+            for i in range(n):
+                for j in range(n):
+                    want = 0.0 if i == j else float(dtw.distance(s[min(i, j)], s[max(i, j)], **skw))
+                    if not _o.close(float(R[i, j]), want) and not dtwmon.engines_agree(float(R[i, j]), want):
+                        ctx.violation("square-entry", prop="C06", fn="dtw.distance_matrix", entry=[i, j], got=float(R[i, j]), want=want,
+                                      series=[dtwmon.tolist(x) for x in s], settings=dict(dtwmon.settings_key(kw)))
+                        return
+        from vf import oracle as _o
+        monitors.attach(ctx, dtw, "distance_matrix", p6)
 
 
 def pytest_runtest_logreport(report):
